@@ -5,7 +5,7 @@
 
 use serde_json::{json, Value};
 use truth::ast;
-use crate::common::*;
+use vh::common::*;
 
 const MAPFILE: &str = "!anmmap\n!ins_signatures\n100 S\n101 f\n";
 
@@ -83,13 +83,16 @@ fn inline(ty: &str, text: &str) -> Value {
     json!({"named": aj, "inline": bj, "same": aj == bj})
 }
 
-pub fn main(args: &[String]) {
+fn main() {
+    install_panic_hook();
+    let args: Vec<String> = std::env::args().skip(1).collect();
+    let args = &args[..];
     let cases = read_lines(&args[0]);
     let out = std::io::stdout();
     let mut out = std::io::BufWriter::new(out.lock());
     use std::io::Write;
     for c in &cases {
-        let text = crate::render::expr(&c["e"]);
+        let text = vh::render::expr(&c["e"]);
         let ty = c["ty"].as_str().unwrap_or("i");
         let row = json!({
             "id": c["id"], "text": text,
